@@ -596,6 +596,107 @@ def check_filter(ctx, viol):
 
 # ----------------------------------------------------------------------------
 
+# ----------------------------------------------------------------------------
+# storage types, caller-owned arrays, multi-call histories
+# ----------------------------------------------------------------------------
+
+def check_storage_history(ctx, viol):
+    rng = ctx.rng
+    jobs = []
+    # air <-> vacuum
+    for fn in ('airtovac', 'vactoair'):
+        for st in ('f4', '>f8', '>f4', 'i4', '>i4', 'i8', 'u2', 'noncontig'):
+            if st in ('i4', '>i4', 'i8', 'u2'):
+                vals = [rng.randint(100, 60000) for _ in range(10)] + [2000, 1500]
+            else:
+                vals = [f32(gen_wavelength(rng)) for _ in range(10)] + [1500.0]
+            jobs.append({'op': 'storage', 'fn': fn, 'storage': st, 'values': vals})
+        jobs.append({'op': 'storage', 'fn': fn, 'storage': '>f8', 'unit': rng.choice(['AA', 'nm', 'um']),
+                     'values': [gen_wavelength(rng, 'AA') / 1.0 for _ in range(8)]})
+        jobs.append({'op': 'storage', 'fn': fn, 'storage': 'noncontig', 'values': [gen_wavelength(rng, hi=1990.0) for _ in range(5)]})
+    # sdssflux2ab
+    for mode in ('flux', 'mag', 'ivar'):
+        for st in ('f4', '>f8', '>f4', 'noncontig', 'fortran', 'i8', 'i4'):
+            rows = rng.randint(1, 4)
+            if st in ('i8', 'i4'):
+                vals = [rng.randint(1, 30) for _ in range(rows * 5)]
+            else:
+                vals = [C.dyadic(rng, 1, 30, 6) for _ in range(rows * 5)]
+            jobs.append({'op': 'storage', 'fn': 'sdssflux2ab', 'mode': mode, 'storage': st, 'values': vals})
+    # filter_thru
+    nT, nx = 2, 120
+    for st, ws, ms in (('f4', None, None), ('>f4', None, 'i4'), ('>f8', '>f8', 'u1'), ('i4', None, None), ('i8', None, 'bool'),
+                       ('>i2', None, None), ('noncontig', 'noncontig', '>i2'), ('fortran', 'fortran', 'i8'), ('d', 'f4', 'bool')):
+        l0 = round(math.log10(rng.uniform(3000, 3600)) * 4096) / 4096
+        dl = round(0.5 / nx * 2 ** 20) / 2 ** 20
+        if rng.random() < 0.4:
+            l0, dl = l0 + dl * (nx - 1), -dl
+        vals = [rng.randint(1, 40) if st in ('i4', 'i8', '>i2') else C.dyadic(rng, 1, 40, 4) for _ in range(nT * nx)]
+        job = {'op': 'storage', 'fn': 'filter_thru', 'storage': st, 'nT': nT, 'nx': nx, 'values': vals, 'loglam0': [l0] * nT,
+               'dloglam': [dl] * nT, 'wave_storage': ws, 'mask': None, 'mask_storage': ms}
+        if ms is not None:
+            job['mask'] = [1 if rng.random() < 0.12 else 0 for _ in range(nT * nx)]
+        jobs.append(job)
+    # ---- histories: the same calls in one process, in order, and each alone in a fresh process
+    fvals = [C.dyadic(rng, 1, 30, 6) for _ in range(10)]
+    fjob = {'op': 'filter', 'nT': 1, 'nx': 60, 'flux': [C.dyadic(rng, 1, 30, 4) for _ in range(60)], 'flux2': [1.0] * 60,
+            'loglam0': [3.5], 'dloglam': [0.008], 'wave': 'waveimg', 'toair': False, 'a': 1.0, 'b': 0.5, 'c': 7.0, 'mask': None,
+            'return_weights': False}
+    fjob_m = dict(fjob, mask=[1 if k % 7 == 3 else 0 for k in range(60)])
+    hist = [
+        {'op': 'flux2ab', 'mode': 'flux', 'flux': fvals}, {'op': 'flux2ab', 'mode': 'ivar', 'flux': fvals},
+        {'op': 'flux2ab', 'mode': 'flux', 'flux': fvals}, {'op': 'flux2ab', 'mode': 'mag', 'flux': fvals},
+        {'op': 'flux2ab', 'mode': 'ivar', 'flux': fvals}, {'op': 'flux2ab', 'mode': 'flux', 'flux': fvals},
+        fjob_m, fjob, dict(fjob, wave='wset'), fjob_m, dict(fjob, toair=True), fjob,
+        {'op': 'wave', 'fn': 'airtovac', 'kind': 'array', 'unit': 'AA', 'values': [1500.0, 2500.0, 6000.0]},
+        {'op': 'wave', 'fn': 'airtovac', 'kind': 'quantity', 'unit': 'nm', 'values': [150.0, 250.0, 600.0]},
+        {'op': 'wave', 'fn': 'vactoair', 'kind': 'array', 'unit': 'AA', 'values': [1500.0, 2500.0, 6000.0]},
+        {'op': 'wave', 'fn': 'airtovac', 'kind': 'array', 'unit': 'AA', 'values': [1500.0, 2500.0, 6000.0]},
+        {'op': 'wave', 'fn': 'airtovac', 'kind': 'int64_array', 'unit': 'AA', 'values': [1500, 2500, 6000]},
+        {'op': 'wave', 'fn': 'airtovac', 'kind': 'scalar', 'unit': 'AA', 'values': [2500.0]},
+    ]
+    payloads = [[{'op': 'history', 'calls': hist}]] + [[c] for c in hist] + [jobs[k::4] for k in range(4)]
+    outs = C.run_impl_parallel('c19_impl.py', payloads)
+    whole = outs[0]['results'][0]
+    if 'err' in whole:
+        viol('C19:history:impl-error', 'history run raised %s' % whole, {'kind': 'failing-input', 'history': hist}, True)
+    else:
+        for k, (c, r_hist, o) in enumerate(zip(hist, whole['results'], outs[1:1 + len(hist)])):
+            r_alone = o['results'][0]
+            if r_hist != r_alone:
+                name = c.get('fn') or {'flux2ab': 'sdssflux2ab', 'filter': 'filter_thru'}.get(c['op'], c['op'])
+                viol('C19:history:%s' % name, 'call #%d (%s %s) answers differently after %d earlier calls in the same process than alone'
+                     % (k, name, c.get('mode') or c.get('kind') or ('mask' if c.get('mask') else 'no mask'), k),
+                     {'kind': 'failing-input', 'input': {'history': [dict((kk, vv) for kk, vv in h.items() if kk not in ('flux', 'flux2')) for h in hist[:k]],
+                                                         'call': c}, 'in_history': r_hist, 'alone': r_alone}, True)
+    results = [None] * len(jobs)
+    for k, o in enumerate(outs[1 + len(hist):]):
+        for i, r in enumerate(o['results']):
+            results[k + i * 4] = r
+    nvals = 0
+    for job, r in zip(jobs, results):
+        fn, st = job['fn'], job['storage']
+        small = {k: v for k, v in job.items() if k not in ('values', 'mask')}
+        rep0 = {'kind': 'failing-input', 'input': dict(small, values=job['values'][:12]), 'job': job if len(job['values']) <= 300 else None,
+                'impl_result': {k: (v[:12] if isinstance(v, list) else v) for k, v in r.items()}}
+        if 'err' in r:
+            viol('C19:%s:storage-type' % fn, '%s raised %s for %s data: %s' % (fn, r['err'], st, r.get('msg')), rep0, True)
+            continue
+        if not r['input_unchanged']:
+            viol('C19:%s:input-modified' % fn, '%s modified its %s input' % (fn, st), rep0, True)
+        if r['aliases_input'] and not r.get('all_below'):
+            viol('C19:%s:result-aliases-input' % fn, 'the result of %s shares memory with its %s input' % (fn, st), rep0, True)
+        f4 = 'f4' in st or 'f4' in str(job.get('wave_storage'))
+        tol = 5e-6 if f4 else 1e-12
+        for y, ref in zip(r['out'], r['ref']):
+            nvals += 1
+            if not isnum(y) or not isnum(ref) or abs(y - ref) > tol * max(abs(ref), 1e-30) + (1e-300 if not f4 else 1e-12):
+                viol('C19:%s:storage-type' % fn, '%s on %s data returns %r where the same numbers as float64 give %r (%s)'
+                     % (fn, st, y, ref, job.get('mode') or job.get('unit') or ''), rep0, True)
+                break
+    return {'values': nvals, 'history_calls': len(hist), 'storage_jobs': len(jobs)}
+
+
 def correspond(ctx, proof_ok=True):
     ok, log = C.coq_make(['C19/Model.vo'])
     if not ok:
@@ -604,7 +705,9 @@ def correspond(ctx, proof_ok=True):
     w = check_wave(ctx, viol)
     f = check_flux(ctx, viol)
     t = check_filter(ctx, viol)
+    sh = check_storage_history(ctx, viol)
     ctx.coverage.update({
+        'storage_type_values': sh['values'], 'storage_type_jobs': sh['storage_jobs'], 'history_calls': sh['history_calls'],
         'evaluations': w['cases'] + 3 * w['grid'] + f['values'] + 4 * t['bands'],
         'distinct_nontrivial': w['cases'] + f['n_lemmas'] + t['coq_cases'],
         'rule': 'one evaluation = one wavelength through airtovac/vactoair (each grid point of the dense round trips counts for the '
